@@ -9,7 +9,9 @@ package main
 
 import (
 	"bytes"
+	"flag"
 	"fmt"
+	"os"
 	"strings"
 
 	"github.com/sarchlab/akita/v4/sim"
@@ -53,12 +55,12 @@ func (c *envCU) SRegCount() int { return c.spec.sgprs }
 func (c *envCU) LDSBytes() int  { return c.spec.lds }
 
 type kern struct {
-	wgs, wfPerWG  int
-	sgpr, vgpr    int // per wavefront / per work-item register demand
-	lds           int // static LDS in the code object
-	dynLDS        int // extra dynamic LDS (packet.GroupSegmentSize = lds + dynLDS)
-	filterOdd     bool
-	injectAt      int
+	wgs, wfPerWG int
+	sgpr, vgpr   int // per wavefront / per work-item register demand
+	lds          int // static LDS in the code object
+	dynLDS       int // extra dynamic LDS (packet.GroupSegmentSize = lds + dynLDS)
+	filterOdd    bool
+	injectAt     int
 }
 
 type cfg struct {
@@ -71,14 +73,14 @@ type cfg struct {
 }
 
 type resident struct {
-	k, wg    int
-	cu       int
-	locs     []protocol.WfDispatchLocation
-	sgprB    int // bytes
-	vgprB    int
-	ldsB     int
-	done     bool
-	mapID    string
+	k, wg int
+	cu    int
+	locs  []protocol.WfDispatchLocation
+	sgprB int // bytes
+	vgprB int
+	ldsB  int
+	done  bool
+	mapID string
 }
 
 func roundUp(a, g int) int { return (a + g - 1) / g * g }
@@ -460,21 +462,39 @@ func panicSig(txt string) string {
 	return "panic/" + txt
 }
 
+// c08Sigs are the oracles of this world that belong to property C08 ("every work-item is executed exactly
+// once ... the announced number of work-groups equals the number produced, also when a work-group filter
+// splits the grid"): when this binary runs as the part "dispatch" of check C08 only they are reported.
+var c08Sigs = map[string]bool{"work-group-mapped-twice": true, "work-group-never-mapped": true, "filtered-work-group-mapped": true,
+	"work-group-outside-grid": true, "map-wrong-wavefront-count": true, "map-unknown-kernel": true}
+
 func main() {
-	r := harness.Start("C09", "model_checking")
+	partOf := ""
+	for _, a := range os.Args[1:] {
+		if strings.HasPrefix(a, "-part-of=") {
+			partOf = strings.TrimPrefix(a, "-part-of=")
+		}
+	}
+	flag.String("part-of", "", "run as the part 'dispatch' of that check (C08)")
+	var r *harness.Run
+	if partOf != "" {
+		r = harness.StartPart(partOf, "dispatch", "model_checking")
+	} else {
+		r = harness.Start("C09", "model_checking")
+	}
 	small := cuSpec{simds: 2, slots: 2, sgprs: 64, vgprsPerLane: 16, lds: 1024}
 	tiny := cuSpec{simds: 1, slots: 2, sgprs: 32, vgprsPerLane: 8, lds: 512}
 	type sc struct {
 		name string
 		c    cfg
 	}
-	kA := kern{wgs: 4, wfPerWG: 2, sgpr: 16, vgpr: 4, lds: 256}               // two fit per small CU (slots)
-	kBig := kern{wgs: 3, wfPerWG: 1, sgpr: 48, vgpr: 12, lds: 768}             // only one at a time per CU (SGPR/VGPR/LDS)
-	kZero := kern{wgs: 5, wfPerWG: 1, sgpr: 0, vgpr: 0, lds: 0}                // zero demand: slots only
-	kFull := kern{wgs: 2, wfPerWG: 4, sgpr: 16, vgpr: 4, lds: 1024}            // a whole small CU each
-	kDyn := kern{wgs: 3, wfPerWG: 1, sgpr: 16, vgpr: 4, lds: 0, dynLDS: 768}   // dynamic LDS only
+	kA := kern{wgs: 4, wfPerWG: 2, sgpr: 16, vgpr: 4, lds: 256}              // two fit per small CU (slots)
+	kBig := kern{wgs: 3, wfPerWG: 1, sgpr: 48, vgpr: 12, lds: 768}           // only one at a time per CU (SGPR/VGPR/LDS)
+	kZero := kern{wgs: 5, wfPerWG: 1, sgpr: 0, vgpr: 0, lds: 0}              // zero demand: slots only
+	kFull := kern{wgs: 2, wfPerWG: 4, sgpr: 16, vgpr: 4, lds: 1024}          // a whole small CU each
+	kDyn := kern{wgs: 3, wfPerWG: 1, sgpr: 16, vgpr: 4, lds: 0, dynLDS: 768} // dynamic LDS only
 	kFilt := kern{wgs: 6, wfPerWG: 1, sgpr: 16, vgpr: 4, lds: 256, filterOdd: true}
-	kOdd := kern{wgs: 5, wfPerWG: 2, sgpr: 17, vgpr: 5, lds: 300}              // demands that are not multiples of the granularity
+	kOdd := kern{wgs: 5, wfPerWG: 2, sgpr: 17, vgpr: 5, lds: 300} // demands that are not multiples of the granularity
 	kOne := kern{wgs: 1, wfPerWG: 1, sgpr: 16, vgpr: 4, lds: 256}
 	late := func(k kern, at int) kern { k.injectAt = at; return k }
 	var list []sc
@@ -530,7 +550,20 @@ func main() {
 	}
 	var scs []harness.Scenario
 	for _, s := range list {
-		scs = append(scs, harness.Scenario{Name: s.name, Bound: bound, Body: body(s.c), PanicSig: panicSig})
+		b := body(s.c)
+		if partOf != "" {
+			if strings.Contains(s.name, "+") && r.Replay == "" {
+				continue // single kernels: the partition of one grid over the CUs
+			}
+			inner := b
+			b = func(x *explore.Exec) *explore.Violation {
+				if v := inner(x); v != nil && c08Sigs[v.Sig] {
+					return v
+				}
+				return nil
+			}
+		}
+		scs = append(scs, harness.Scenario{Name: s.name, Bound: bound, Body: b, PanicSig: panicSig})
 	}
 	r.Assume = []string{
 		"a CU's resources are occupied from the MapWGReq until the CU sends the WGCompletionMsg",
